@@ -818,7 +818,8 @@ class CompositeEnvelope:
             state_objs.extend(ce.state_objs)
             if ce_container is None:
                 ce_container = CompositeEnvelope._containers[ce.uid]
-            else:
+            elif CompositeEnvelope._containers[ce.uid] is not ce_container:
+                # Two handles of the same container must not append it to itself
                 ce_container.append_states(CompositeEnvelope._containers[ce.uid])
             ce.uid = self.uid
         if ce_container is None:
